@@ -280,7 +280,7 @@ func Record(args []string) {
 			os.Exit(2)
 		}
 	}
-	lits := lexers.HarvestLiterals("/repo")["css"]
+	lits := lexers.HarvestLiterals(reg.Repo())["css"]
 	rng.Shuffle(len(lits), func(i, j int) { lits[i], lits[j] = lits[j], lits[i] })
 	subst := [][]byte{{0}, {0xFF}, {'{'}, {'}'}, {';'}, {'('}, {')'}, {'*'}, {'\\'}, {'"'}, {'@'}, {':'}}
 	for i := 0; i < len(lits) && i < *per; i++ {
